@@ -179,7 +179,8 @@ def c05():
     t0 = time.time()
     gh = build_harness()
     known = _known_ids("C05")
-    cfgs = ["MCExprFlat2.cfg", "MCExprFlat3.cfg" if tier == "quick" else "MCExprFlat3Full.cfg", "MCExprLit.cfg", "MCExprTreeQuick.cfg" if tier == "quick" else "MCExprTree.cfg"]
+    cfgs = ["MCExprFlat2.cfg", "MCExprFlat3.cfg" if tier == "quick" else "MCExprFlat3Full.cfg", "MCExprLit.cfg", "MCExpr_touch.cfg", "MCExpr_strlit.cfg",
+            "MCExprTreeQuick.cfg" if tier == "quick" else "MCExprTree.cfg"]
     builtins = ["MCBuiltins_%s.cfg" % g for g in ("str2", "str1", "replace", "in", "num", "order")]
     with cf.ThreadPoolExecutor(max_workers=4) as ex:
         futs = [ex.submit(export_cases, i, "MCExpr.tla", c, "CASE ", 4) for i, c in enumerate(cfgs)]
@@ -231,7 +232,8 @@ def c05():
                     % (", ".join(cfgs), ", ".join(builtins)),
            "rule": "case = well-typed member of a bounded family: flat operator sequences of 2 and 3 operators over all 15 operators (grouping left to the "
                    "parser, and fully parenthesised), depth-2 trees with negation, parenthesised sub-expressions, strings and failing operands (short "
-                   "circuit), number literals in every documented notation; calls of the string built-ins over all strings up to length 3 of a 4-letter alphabet "
+                   "circuit), operands that record their evaluation (exactly the operands the short-circuit rules reach are evaluated, each once), number literals "
+                   "in every documented notation, string literals built from plain characters and every escape form (bytes for \\x / octal, UTF-8 for \\u); calls of the string built-ins over all strings up to length 3 of a 4-letter alphabet "
                    "(receiver as constant and through a map entry of a fact), variadic In / Max / Min, Abs / Floor / Ceil / Round, and fact methods whose result "
                    "depends on argument order (fixed, variadic, mixed kinds); each printed with varying spacing, comments and keyword case; the value "
                    "is captured by a typed sink method so the kind is checked too. Every exported case is a distinct TLC state.",
